@@ -2,7 +2,8 @@
    Only statements; proofs by reference.  Model: model/Ingest.v (one insert worker), model/PushHandler.v (all
    workers, promise store, HTTP push handlers with retry); monitors: model/IngestSpec.v. *)
 From Coq Require Import List NArith ZArith Bool.
-From Qryn Require Import model.Ingest model.PushHandler model.IngestSpec proofs.IngestBase proofs.IngestAck.
+From Qryn Require Import model.Ingest model.PushHandler model.IngestSpec proofs.IngestBase proofs.IngestAck
+  proofs.IngestSpecProofs.
 Import ListNotations.
 
 (* For every configuration (workers of any kind / round-robin group / maxQueueSize, retry count), every
@@ -37,3 +38,13 @@ Theorem ack_sound_partial : forall cfg n tr g es,
   run_mon (amon_step false) (amon_init (length cfg)) es <> None.
 Proof. intros cfg n tr g es. apply ack_sound_gen. apply trace_weak_ok. Qed.
 Print Assumptions ack_sound_partial.
+
+(* For arbitrary requests: a promise is completed either by Request itself -- only with an error (service
+   stopped) or because nothing was inserted (empty key column) -- or in the burst that directly follows the
+   return of the Do whose portion holds it, with exactly that Do's outcome; a worker never has two Do calls in
+   flight and never sends an empty portion. *)
+Theorem promise_resolved_with_its_block : forall cfg n tr g es,
+  grun (ginit cfg n) tr = Some (g, es) ->
+  run_mon (smon_step MLenient) (smon_init (length cfg)) es <> None.
+Proof. intros cfg n tr g es. apply spec_sound_gen. apply act_q_lenient. Qed.
+Print Assumptions promise_resolved_with_its_block.
